@@ -27,11 +27,13 @@ Section C16.
     (forall p, filter (fun x => prio x =? p) (tree_sort prio l) = filter (fun x => prio x =? p) l).
   Proof. intro l. exact (conj (sort_perm prio l) (conj (sort_sorted prio l) (fun p => sort_stable prio p l))). Qed.
 
-  (* and these three properties determine the result: the model IS sort.SliceStable *)
+  (* and sortedness + stability determine the result: the model IS sort.SliceStable.  (No further premise:
+     that l' is a permutation of l follows from the stability equations -- take the union over p -- and an
+     earlier version's premise `forall x, In x l' -> exists p, prio x = p` was trivially true.) *)
   Theorem c16_sort_unique : forall l l',
     StronglySorted (fun a b => prio b <= prio a) l' ->
     (forall p, filter (fun x => prio x =? p) l' = filter (fun x => prio x =? p) l) ->
-    (forall x, In x l' -> exists p, prio x = p) -> Permutation l' l -> l' = tree_sort prio l.
+    l' = tree_sort prio l.
   Proof. exact (sort_unique prio). Qed.
 
   (* any permutation of the hoistable declarations (function, method, struct type) and any partition into
@@ -48,7 +50,13 @@ Print Assumptions c16_sort_spec.
 Print Assumptions c16_sort_unique.
 Print Assumptions c16_layout_invariant.
 
-(* files of a package are joined in name order: first file whole, later files without their package clause *)
+(* join_files (Model/TreeSort.v) unfolded: the first file whole, every later file without its first node (the
+   package clause).  DEFINITIONAL: this is the defining equation of join_files, proved by reflexivity, stated
+   only so that the shape of the model is visible next to the theorems that use it.  It says nothing about
+   the ORDER in which the files arrive ("fs.Glob returns the files in name order" is a listed assumption of
+   checks/c16.py), nor that the real joinFiles has this shape: there is no model-level correspondence for
+   it; the real loader is exercised end to end by the harness command c16-perm (random partitions of a
+   package into 1..4 files must print what the one-file layout prints). *)
 Theorem c16_join : forall (A : Type) (f : list A) (r : list (list A)),
   join_files (f :: r) = f ++ List.concat (map (@tl A) r).
 Proof. exact join_files_spec. Qed.
